@@ -258,7 +258,7 @@ func (serviceCore *ServiceCore) Init() error {
 
 	// load clients
 	err = serviceCore.loadClients()
-	if err != nil {
+	if err != nil && !os.IsNotExist(err) {
 		return err
 	}
 
